@@ -29,6 +29,10 @@ fn t(slot: u8) -> SystemTime { SystemTime::UNIX_EPOCH + Duration::from_secs(1_60
 
 pub fn content(size: usize, variant: u8) -> Vec<u8> {
   // variant 0/1: different everywhere; variant 2: equals variant 0 except for the last byte; variant 3: except the first
+  // variant 10: zero-filled; variant 11: a 16-byte pattern repeated (what a block-wise reader that pads or re-uses its
+  // buffer cannot tell apart from a shorter / longer file)
+  if variant == 10 { return vec![0u8; size]; }
+  if variant == 11 { return (0..size).map(|i| b"0123456789abcdef"[i % 16]).collect(); }
   let base = if variant == 1 { 17u32 } else { 3u32 };
   let mut v: Vec<u8> = (0..size).map(|i| ((base * 31 + i as u32 * 7) % 251) as u8).collect();
   if size > 0 {
@@ -230,6 +234,9 @@ fn run_on(root: &Path, fsname: &'static str, tier: &str, seed: u64, rep: &mut Re
   let mut states = vec![PState::Absent, PState::Dir(vec![], 0), PState::Dir(vec!["a".into()], 0), PState::Dir(vec!["a".into(), "b".into()], 1)];
   for s in &sizes { for v in 0..4u8 { if *s == 0 && v > 0 { continue; } states.push(PState::File(*s, v, (v % 2) as u8)); } }
   for s in [1usize, 8192] { states.push(PState::File(s, 0, 1)); } // same content, other mtime
+  // contents that differ only in their length: trailing NUL bytes, zero-filled files, periodic content
+  for s in [1usize, 2, 3, 4, 8192, 8193, 65_536, 65_537, 70_000] { states.push(PState::File(s, 10, 0)); }
+  for s in [16usize, 32, 65_536, 65_552, 72_000, 72_160] { states.push(PState::File(s, 11, 0)); }
   let mut case = 0u64;
   for a in &states {
     for b in &states {
@@ -316,7 +323,7 @@ pub fn run(tier: &str, seed: u64, replay: Option<u64>) -> Report {
   let collide: u64 = rep.counters.iter().filter(|(k, _)| k.starts_with("directory_pairs_listing_in_a_colliding_order")).map(|(_, v)| *v).sum();
   rep.sample(|| J::s("File(8192 bytes, variant 0, mtime slot 0) stamped, File(8192 bytes, variant 2 = last byte differs, mtime slot 0) checked: Exists consistent, Modified consistent, Hash inconsistent"));
   rep.sample(|| J::s("Dir created [\"a\", \"bc\"] stamped, changed in place to [\"ab\", \"c\"], checked: Hash must be inconsistent"));
-  rep.rule = "Path states: absent; files of sizes around the 8 KiB read buffer and beyond (quick: 0,1,8191,8192,8193,16384; thorough: 13 sizes up to 100000) in 4 content variants (different everywhere / only last byte / only first byte) with explicitly set modification times (2 slots); small directories; and concatenation-ambiguous directory name sets ({p,qr}/{pq,r}, {pq,rs}/{p,qrs}, {p,q,rs}/{pq,r,s}, {pqr}/{pq,r}) over random letters, created in every order, changed in place; plus all ordered pairs of 28 name sets with unusual names (dot-prefixed, spaces, upper case, non-ASCII, 200 characters, trailing dot, names that are not valid UTF-8 and differ only in the invalid bytes, U+FFFD itself). For ALL ordered pairs (state when stamped, state when checked) x {Exists, Modified, Hash}: path and reader stamps agree, untouched => consistent, and the verdict equals equality of the documented aspect (hash: file<->directory kind change and same-name-set directories that were recreated are not claimed). Writer route: file written through Resource::write, stamp_writer == path stamp; stamped readers must still deliver the full content; Resource::write must create/truncate and refuse directories. Run on the work directory's file system and on tmpfs (/dev/shm) because directory iteration order is file-system specific. non-trivial = pair with different states.".into();
+  rep.rule = "Path states: absent; files of sizes around the 8 KiB read buffer and beyond (quick: 0,1,8191,8192,8193,16384; thorough: 13 sizes up to 100000) in 4 content variants (different everywhere / only last byte / only first byte), zero-filled files of 9 lengths and 16-byte-periodic files of 6 lengths (1 B to 72 160 B: contents that differ only in how long they are) with explicitly set modification times (2 slots); small directories; and concatenation-ambiguous directory name sets ({p,qr}/{pq,r}, {pq,rs}/{p,qrs}, {p,q,rs}/{pq,r,s}, {pqr}/{pq,r}) over random letters, created in every order, changed in place; plus all ordered pairs of 28 name sets with unusual names (dot-prefixed, spaces, upper case, non-ASCII, 200 characters, trailing dot, names that are not valid UTF-8 and differ only in the invalid bytes, U+FFFD itself). For ALL ordered pairs (state when stamped, state when checked) x {Exists, Modified, Hash}: path and reader stamps agree, untouched => consistent, and the verdict equals equality of the documented aspect (hash: file<->directory kind change and same-name-set directories that were recreated are not claimed). Writer route: file written through Resource::write, stamp_writer == path stamp; stamped readers must still deliver the full content; Resource::write must create/truncate and refuse directories. Run on the work directory's file system and on tmpfs (/dev/shm) because directory iteration order is file-system specific. non-trivial = pair with different states.".into();
   rep.floor("directory pairs that list in a colliding order were exercised", collide > 0 || replay.is_some());
   rep.floor("writer route comparisons ran", rep.get("writer_route_comparisons") > 10 || replay.is_some());
   rep.floor("reader content comparisons ran", rep.get("reader_content_comparisons") > 10 || replay.is_some());
